@@ -175,6 +175,54 @@ theorem mem_iterSymbols {es : List Entry} {p : Nat × Name} :
   · rintro ⟨e, he, h1, h2⟩
     exact ⟨e, he, p.2, h2, by cases p; simp at h1 ⊢; exact h1⟩
 
+
+/-! ### the stable sort followed by `dedup` keeps, for every address, the entry that was pushed first -/
+
+theorem find?_dedupAux (p : Nat) (prev : Entry) (l : List Entry) :
+    (dedupAux prev l).find? (fun e => e.addr == p) = (prev :: l).find? (fun e => e.addr == p) := by
+  induction l generalizing prev with
+  | nil => simp [dedupAux]
+  | cons e rest ih =>
+    unfold dedupAux
+    split
+    next heq =>
+      rw [ih prev]
+      by_cases hp : prev.addr = p
+      · simp [hp]
+      · have he : ¬ e.addr = p := by omega
+        simp [hp, he]
+    next hne =>
+      rw [List.find?_cons, ih e]
+      conv => rhs; rw [List.find?_cons]
+
+theorem find?_dedup (p : Nat) (l : List Entry) :
+    (dedup l).find? (fun e => e.addr == p) = l.find? (fun e => e.addr == p) := by
+  cases l with
+  | nil => simp [dedup]
+  | cons e rest => exact find?_dedupAux p e rest
+
+theorem filter_sortEntries (p : Nat) (l : List Entry) :
+    (sortEntries l).filter (fun e => e.addr == p) = l.filter (fun e => e.addr == p) := by
+  have hsub : (l.filter (fun e => e.addr == p)).Sublist (sortEntries l) := by
+    apply List.sublist_mergeSort (le := fun (a b : Entry) => decide (a.addr ≤ b.addr))
+      (fun a b c h1 h2 => by simp at *; omega) (fun a b => by simp; omega)
+    · apply List.pairwise_of_forall_mem_list
+      intro a ha b hb
+      simp [List.mem_filter] at ha hb
+      simp; omega
+    · exact List.filter_sublist
+  have h1 := hsub.filter (fun e => e.addr == p)
+  rw [List.filter_filter] at h1
+  simp only [Bool.and_self] at h1
+  have hperm := (List.mergeSort_perm l (fun a b => decide (a.addr ≤ b.addr))).filter (fun e => e.addr == p)
+  exact (h1.eq_of_length hperm.length_eq.symm).symm
+
+/-- for every address: the entry `SymbolList::new` keeps is the first one pushed with that address -/
+theorem build_keeps_first (d : Desc) (p : Nat) :
+    (build d).find? (fun e => e.addr == p) = (parts d).find? (fun e => e.addr == p) := by
+  unfold build
+  rw [find?_dedup, ← List.head?_filter, ← List.head?_filter, filter_sortEntries]
+
 theorem fileOffsetToSvma_no_panic (ranges : List Range) (h : ∀ r ∈ ranges, r.fileOffset + r.size < U64)
     (o : Nat) : fileOffsetToSvma ranges o ≠ .panic := by
   induction ranges with
